@@ -5,7 +5,9 @@ the real `bash` saw after sourcing the function the real `JobFileWriter` wrote.
 input  i : {"defs": [[name, value] ...],             -- the [environment] section, in configuration order
             "parts": [[P ...] ...],                   -- the structure the value texts were rendered from
             "env": [[name, value] ...],               -- environment bash starts with (HOME ...)
-            "homes": [[login, dir] ...]}              -- passwd entries of the tilde-prefixes that occur
+            "homes": [[login, dir] ...],              -- passwd entries of the tilde-prefixes that occur
+            "filter": {"incl": [name ...], "excl": [name ...]} | absent}   -- [environment filter]: the section goes
+                                                       -- through the real WorkflowConfig.filter_env first
    P       : {"l": text} | {"r": NAME, "b": braces?}
 observed o : "syntax" | [[name, value | null] ...]    (null = unset after the function ran)
 model    m : the same, or "unsupported" (outside the modelled bash fragment)
@@ -37,6 +39,7 @@ structure Case where
   parts : List (List Part)
   env : Env
   homes : Env
+  filt : Option (List Str × List Str) := none     -- [environment filter] include / exclude
 
 def parseCase (i : Json) : Except String Case := do
   let defs ← parsePairs (jArrField? i "defs") "defs"
@@ -44,12 +47,17 @@ def parseCase (i : Json) : Except String Case := do
   let env ← parsePairs (jArrField? i "env") "env"
   let homes ← parsePairs (jArrField? i "homes") "homes"
   if parts.length != defs.length then throw "parts/defs length"
-  return ⟨defs, parts, env, homes⟩
+  let strs (j : Json) (k : String) : List Str := ((jArrField? j k).getD []).filterMap fun e => (jStr? e).map String.toList
+  let filt := (jOptField i "filter").map fun f => (strs f "incl", strs f "excl")
+  return ⟨defs, parts, env, homes, filt⟩
 
 def jStrL (s : Str) : Json := Json.str (String.ofList s)
 
 def modelOut (c : Case) : Json :=
-  match exportEnv Generated.BashCfg.escapesDquote c.homes c.defs c.env with
+  let defs := match c.filt with
+    | some (incl, excl) => filterEnv incl excl c.defs
+    | none => c.defs
+  match exportEnv Generated.BashCfg.escapesDquote c.homes defs c.env with
   | .syntax => "syntax"
   | .unsupported => "unsupported"
   | .ok env => Json.arr (c.defs.map fun d =>
@@ -148,7 +156,16 @@ def observed (o : Json) : Option (List (Str × Option Str)) :=
     | some [n, v] => (jStr? n).map fun n => (n.toList, (jStr? v).map String.toList)
     | _ => none
 
-def judge (c : Case) (o : Json) : Bool × String :=
+/-- spec of `[environment filter]`: a variable stays iff it is in the include list (when there is
+one) and not in the exclude list; the others keep their configuration order -/
+def kept (filt : Option (List Str × List Str)) (n : Str) : Bool :=
+  match filt with
+  | none => true
+  | some (incl, excl) => (incl.isEmpty || incl.contains n) && !excl.contains n
+
+def judge (c0 : Case) (o : Json) : Bool × String :=
+  let zipped := (c0.defs.zip c0.parts).filter fun d => kept c0.filt d.1.1
+  let c : Case := { c0 with defs := zipped.map (·.1), parts := zipped.map (·.2) }
   let exps := expectations c.defs c.parts
   let claims := exps.filter (fun e => e.2.isSome)
   let key := if c.defs.any (fun d => d.2.contains '"') then "dquote: " else ""
